@@ -478,19 +478,19 @@ func keeperMutationRule(c *Ctx, fs []*ssa.Function, rule string) {
 
 // ---------------------------------------------------------------------------------------
 
-// reviewed abort sources on block-level roots: function|kind|ordinal -> reason
+// Explicit panics on block-level paths are discharged by *class*, decided structurally where the
+// panic stands (whatever function it was written or extracted into, lifted through the callers'
+// arguments): the panic must be reachable only on an edge of one of these kinds.
+//   queued-order-found   lookup of an order whose id was read from the queue section failed
+//   queued-order-status  the queued order's status differs from the constant the step expects
+//   setter-error         the order setter failed (it fails only on an invalid status; a constant valid one is stored)
+//   stored-address       a bech32 address taken from a stored order does not parse (validated when the order was raised)
+//   mint-route-error     the mint/lock route returned an error (module permissions are checked by A5; the purchaser signed the order, so it is no blocked module account)
+//   decode-error         a stored value of a section does not decode (every writer of the section marshals the same type: C20)
+// Panicking API calls keep a reviewed table keyed by function, API and ordinal.
+var blockPanicClasses = []string{"queued-order-found", "queued-order-status", "setter-error", "stored-address", "mint-route-error", "decode-error"}
+
 var blockPanicReviewed = map[string]string{
-	"(x/enterprise/keeper.Keeper).TallyPurchaseOrderDecisions|panic|1":     "guard:queued-order-found",
-	"(x/enterprise/keeper.Keeper).TallyPurchaseOrderDecisions|panic|2":     "guard:queued-order-status",
-	"(x/enterprise/keeper.Keeper).TallyPurchaseOrderDecisions|panic|3":     "guard:setter-error",
-	"(x/enterprise/keeper.Keeper).TallyPurchaseOrderDecisions|panic|4":     "guard:setter-error",
-	"(x/enterprise/keeper.Keeper).TallyPurchaseOrderDecisions|panic|5":     "guard:setter-error",
-	"(x/enterprise/keeper.Keeper).ProcessAcceptedPurchaseOrders|panic|1":   "guard:queued-order-found",
-	"(x/enterprise/keeper.Keeper).ProcessAcceptedPurchaseOrders|panic|2":   "guard:queued-order-status",
-	"(x/enterprise/keeper.Keeper).ProcessAcceptedPurchaseOrders|panic|3":   "guard:setter-error",
-	"(x/enterprise/keeper.Keeper).ProcessAcceptedPurchaseOrders|panic|4":   "purchaser address was validated when the order was raised (ValidateBasic + handler)",
-	"(x/enterprise/keeper.Keeper).ProcessAcceptedPurchaseOrders|panic|5":   "bank errors of the mint route: module permissions checked (A5); purchaser cannot be a blocked module account (it signed the order)",
-	"(x/stream/keeper.Keeper).IterateAllStreams|panic|1":                   "decode failure of a stream value: every writer of the section marshals the same type (C20 section-type agreement)",
 	"x/stream/types.AddressesFromStreamKey|types.ParseLengthPrefixedBytes|1": "keys of the stream section are produced by the stream key builder whose layout the parser matches (C18)",
 	"x/stream/types.AddressesFromStreamKey|types.ParseLengthPrefixedBytes|2": "keys of the stream section are produced by the stream key builder whose layout the parser matches (C18)",
 	"x/stream/types.AddressesFromStreamKey|types.ParseLengthPrefixedBytes|3": "keys of the stream section are produced by the stream key builder whose layout the parser matches (C18)",
@@ -501,7 +501,7 @@ func C14(c *Ctx) {
 	w, r := c.W, c.R
 	r.Explanation = "(A10) abort-source inventory on the block-level roots (BeginBlock, EndBlock, registered invariants) over the repo call graph: every explicit panic and every call of a panicking SDK API reachable from them is enumerated; each must be discharged by its class — lookup of an id read from the queue section it iterates (found / status panics, consistent by C03's writer rules), error of a setter that fails only on an invalid constant, permission panics excluded by the evaluated maccPerms (enterprise holds Minter and Staking) — or appear in the reviewed table keyed by function, kind and ordinal; anything else is a violation. " +
 		"Denomination provenance: a Coin.Add/Sub on a block-level path whose operands take their denomination from different sources (module parameter vs stored record) is flagged. (b) handlers and ante decorators keep all state in the transaction-scoped stores: C01's out-of-band-state rule restricted to MSG ∪ ANTE roots, so baseapp's rollback covers everything a failed transaction did. (c) error discipline (A8): on every transaction, block and genesis path the error result of a call that can change state (store write/delete or bank move, directly or through in-scope callees) has at least one use — a discarded error would let a handler commit the remaining steps of a half-failed operation, since baseapp rolls back only on a returned error. Atomicity and panic recovery of runTx are trusted; reachability of reviewed panics over all histories is not decided."
-	r.Rules = []string{"A10.block-panics", "A2.panic-class", "A10.denom-provenance", "A5.module-permissions", "A6.tx-scoped-state", "A8.error-propagation"}
+	r.Rules = []string{"A10.block-panics", "A2.panic-class", "A10.denom-provenance", "A5.module-permissions", "A6.tx-scoped-state", "A6.no-recover", "A8.error-propagation"}
 	r.Trusted = []string{"baseapp runTx: cache-wrapped stores, panic recovery, all-or-nothing message execution", "reasons in the reviewed table"}
 	r.NotDecided = []string{"that reviewed panics are unreachable for every history", "commit/IAVL failures"}
 
@@ -515,6 +515,7 @@ func C14(c *Ctx) {
 	sortFuncs(fs)
 	r.Analysed["functions_on_block_level_paths"] = len(fs)
 	n := 0
+	classes := map[string]int{}
 	for _, f := range fs {
 		ord := map[string]int{}
 		for _, b := range f.Blocks {
@@ -541,21 +542,20 @@ func C14(c *Ctx) {
 					blockAPI(c, f, in.(*ssa.Call), e, kind, key)
 					continue
 				}
-				reason, listed := blockPanicReviewed[key]
-				if !listed {
-					r.Bad("A10.block-panics", key, pos(c, in), "every abort source reachable from BeginBlock/EndBlock/invariants is classified or reviewed", "unreviewed panic via "+pathStr(w.PathTo(scope, f)))
-					continue
+				class := ""
+				for _, cl := range blockPanicClasses {
+					if blockPanicClass(c, f, in.(*ssa.Panic), cl) {
+						class = cl
+						break
+					}
 				}
-				if strings.HasPrefix(reason, "guard:") {
-					ok := blockPanicClass(c, f, in.(*ssa.Panic), reason[6:])
-					r.Require(ok, "A2.panic-class", key, pos(c, in), "the panic belongs to its discharge class ("+reason[6:]+")", "the panic is not on the expected guarded edge")
-				} else {
-					r.OK("A10.block-panics", key, pos(c, in), "reviewed: "+reason)
-				}
+				classes[class]++
+				r.Require(class != "", "A10.block-panics", key, pos(c, in), "every explicit panic reachable from BeginBlock/EndBlock/invariants stands on an edge of a discharge class "+fmt.Sprint(blockPanicClasses), "unclassified panic via "+pathStr(w.PathTo(scope, f)))
 			}
 		}
 	}
 	r.Floor("abort sources on block-level paths", n, 12)
+	r.Floor("explicit panics discharged as queue/lookup consistency", classes["queued-order-found"]+classes["queued-order-status"], 2)
 
 	// A5 permissions
 	mp, mpos, err := MaccPerms(c)
@@ -604,6 +604,25 @@ func C14(c *Ctx) {
 	}
 	sortFuncs(efs)
 	sortFuncs(ffs)
+	// (d) no recover() on a consensus path: in BeginBlock/EndBlock the stores are not cache-wrapped, so a
+	// recovered panic leaves the writes made before it in the block's state (and a step that was to halt
+	// the chain is silently skipped); inside a transaction it hides a failure from baseapp's rollback
+	nrec := 0
+	for _, f := range efs {
+		for _, b := range f.Blocks {
+			for _, in := range b.Instrs {
+				if call, ok := in.(ssa.CallInstruction); ok {
+					if bi, ok := call.Common().Value.(*ssa.Builtin); ok && bi.Name() == "recover" {
+						nrec++
+						r.Bad("A6.no-recover", fn(f), pos(c, in), "no recover() on a transaction, block or genesis path (a recovered panic keeps the partial writes made before it)", "recover() in "+fn(f))
+					}
+				}
+			}
+		}
+	}
+	if nrec == 0 {
+		r.OK("A6.no-recover", "none", "", "no recover() reachable from handlers, decorators, blockers or genesis")
+	}
 	sites, _ := errorPropagation(c, efs, "A8.error-propagation")
 	r.Floor("state-changing fallible call sites on transaction/block/genesis paths", sites, 40)
 	mark := len(r.Obls)
@@ -635,6 +654,16 @@ func blockAPI(c *Ctx, f *ssa.Function, call *ssa.Call, e *ir.Expr, kind, key str
 		r.Require(ok, "A10.block-panics", key, pos(c, call), "coins built on block-level paths have a constant non-negative amount", "amount "+amt.String())
 	case kind == "types.NewCoins":
 		r.OK("A10.block-panics", key, pos(c, call), "reviewed: NewCoins of a single validated coin")
+	case kind == "types.ParseLengthPrefixedBytes":
+		// class stored-key-parse: the bytes parsed are a key handed out by a store iterator (whatever helper the
+		// parsing was moved into); that the parser matches the builder's layout is C18's obligation
+		ok := len(e.Args) > 0 && liftAllFrom(c, c.W.RootSet("BEGIN", "END", "INV"), f, e.Args[0], func(x *ir.Expr) bool {
+			return w.Expand(x, 2).Any(func(z *ir.Expr) bool {
+				return (z.Op == "call" || z.Op == "invoke") && (strings.HasSuffix(z.Name, "Iterator.Key") || strings.HasSuffix(z.Name, "Iterator).Key"))
+			})
+		})
+		detail := "parsed bytes: " + e.Args[0].String()
+		r.Require(ok, "A10.block-panics", key, pos(c, call), "length-prefixed parsing on block-level paths is applied only to keys read from a store iterator (layout agreement: C18)", detail)
 	default:
 		if reason, ok := blockPanicReviewed[key]; ok {
 			r.OK("A10.block-panics", key, pos(c, call), "reviewed: "+reason)
@@ -691,6 +720,56 @@ func denomProvenance(c *Ctx, e *ir.Expr) string {
 	return strings.Join(sortedKeys(classes), "+")
 }
 
+// liftAll: cond holds for x in every way f's callers instantiate it (x is in f's terms).
+func liftAll(c *Ctx, f *ssa.Function, x *ir.Expr, cond func(*ir.Expr) bool) bool {
+	ups := c.W.OriginsUp(f, x, 5)
+	if len(ups) == 0 {
+		return false
+	}
+	for _, up := range ups {
+		if !cond(up.E) {
+			return false
+		}
+	}
+	return true
+}
+
+// liftAllFrom: like liftAll, restricted to the instantiations whose outermost function is reachable from the given roots.
+func liftAllFrom(c *Ctx, roots []*ssa.Function, f *ssa.Function, x *ir.Expr, cond func(*ir.Expr) bool) bool {
+	scope := c.W.Reachable(roots)
+	n := 0
+	for _, up := range c.W.OriginsUp(f, x, 6) {
+		if _, in := scope[up.Top]; !in {
+			continue
+		}
+		n++
+		if !cond(up.E) {
+			return false
+		}
+	}
+	return n > 0
+}
+
+func errOfCall(pr ir.Pred, want func(call *ir.Expr) bool) bool {
+	op, x, y, ok := pr.Cmp()
+	if !ok || op != "!=" {
+		return false
+	}
+	for _, pair := range [][2]*ir.Expr{{x, y}, {y, x}} {
+		if pair[1].Op != "const" || pair[1].Name != "nil" {
+			continue
+		}
+		e := pair[0]
+		if e.Op == "res" && len(e.Args) == 1 {
+			e = e.Args[0]
+		}
+		if e.Op == "call" && want(e) {
+			return true
+		}
+	}
+	return false
+}
+
 func blockPanicClass(c *Ctx, f *ssa.Function, p *ssa.Panic, class string) bool {
 	w := c.W
 	switch class {
@@ -701,35 +780,55 @@ func blockPanicClass(c *Ctx, f *ssa.Function, p *ssa.Panic, class string) bool {
 				return false
 			}
 			call := pr.E.Args[0]
-			readsPO := reachesEffect(c, call.Callee, func(e ir.Effect) bool { return e.Kind == "StoreRead" && e.Section == secPO })
-			idFromQueue := false
+			if !reachesEffect(c, call.Callee, func(e ir.Effect) bool { return e.Kind == "StoreRead" && e.Section == secPO }) {
+				return false
+			}
 			for _, a := range call.Args {
-				if a.Op == "elem" && (rangesOverSection(c, a, secRaisedQ) || rangesOverSection(c, a, secAcceptedQ)) {
-					idFromQueue = true
+				if liftAll(c, f, a, func(x *ir.Expr) bool {
+					return x.Op == "elem" && (rangesOverSection(c, x, secRaisedQ) || rangesOverSection(c, x, secAcceptedQ))
+				}) {
+					return true
 				}
 			}
-			return readsPO && idFromQueue
+			return false
 		}, 0)
 	case "queued-order-status":
 		return w.Guarded(f, p, func(pr ir.Pred) bool {
 			return cmpIs(pr, "!=", func(x *ir.Expr) bool { _, ok := allStateField(c, x, secPO, "Status"); return ok }, func(y *ir.Expr) bool {
-				return y.Op == "const" && (y.Name == stRaised || y.Name == stAccepted)
+				return liftAll(c, f, y, func(z *ir.Expr) bool { return z.Op == "const" && (z.Name == stRaised || z.Name == stAccepted) })
 			})
 		}, 0)
 	case "setter-error":
 		// err != nil of a setter whose only error path is an invalid status, while a constant valid status is stored
 		return w.Guarded(f, p, func(pr ir.Pred) bool {
-			op, x, y, ok := pr.Cmp()
-			if !ok || op != "!=" {
-				return false
-			}
-			for _, pair := range [][2]*ir.Expr{{x, y}, {y, x}} {
-				if pair[1].Op == "const" && pair[1].Name == "nil" && pair[0].Op == "call" && pair[0].Callee != nil &&
-					reachesEffect(c, pair[0].Callee, func(e ir.Effect) bool { return e.Kind == "StoreWrite" && e.Section == secPO }) {
-					return true
+			return errOfCall(pr, func(call *ir.Expr) bool {
+				return call.Callee != nil && reachesEffect(c, call.Callee, func(e ir.Effect) bool { return e.Kind == "StoreWrite" && e.Section == secPO }) &&
+					!reachesEffect(c, call.Callee, func(e ir.Effect) bool { return e.Kind == "Mint" })
+			})
+		}, 0)
+	case "stored-address":
+		return w.Guarded(f, p, func(pr ir.Pred) bool {
+			return errOfCall(pr, func(call *ir.Expr) bool {
+				if !strings.HasSuffix(call.Name, "types.AccAddressFromBech32") || len(call.Args) != 1 {
+					return false
 				}
-			}
-			return false
+				return liftAll(c, f, call.Args[0], func(x *ir.Expr) bool {
+					_, ok := allStateField(c, w.Expand(x, 2), secPO, "Purchaser")
+					return ok
+				})
+			})
+		}, 0)
+	case "mint-route-error":
+		return w.Guarded(f, p, func(pr ir.Pred) bool {
+			return errOfCall(pr, func(call *ir.Expr) bool {
+				return call.Callee != nil && reachesEffect(c, call.Callee, func(e ir.Effect) bool { return e.Kind == "Mint" })
+			})
+		}, 0)
+	case "decode-error":
+		return w.Guarded(f, p, func(pr ir.Pred) bool {
+			return errOfCall(pr, func(call *ir.Expr) bool {
+				return strings.HasSuffix(call.Name, ".Unmarshal") || strings.HasSuffix(call.Name, ".UnmarshalInterface")
+			})
 		}, 0)
 	}
 	return false
